@@ -311,3 +311,30 @@ func init() {
 		f.boolFact("pbarDoneForcesCompletion", forces)
 	})
 }
+
+func init() {
+	extra = append(extra, func(f *Facts) {
+		// C03: IndexTable refuses a table whose recomputed block index sum differs from the declared one,
+		// and takes the table index entry of block i from the first row of that block by the table's key
+		it := f.funcDecl("pkg/ingest/index.go", "", "IndexTable")
+		compares, firstRow := false, false
+		if it != nil {
+			ast.Inspect(it.Body, func(n ast.Node) bool {
+				switch s := n.(type) {
+				case *ast.IfStmt:
+					if terminates(s.Body) && f.src(s.Cond) == "!bytes.Equal(blkIdxSum, tbl.BlockIndices[i])" {
+						compares = true
+					}
+				case *ast.AssignStmt:
+					if len(s.Lhs) == 1 && len(s.Rhs) == 1 && f.src(s.Lhs[0]) == "tblIdx[i]" &&
+						f.src(s.Rhs[0]) == "slice.IndicesToValues(blk[0], tbl.PK)" {
+						firstRow = true
+					}
+				}
+				return true
+			})
+		}
+		f.boolFact("indexTableComparesIndexSums", compares)
+		f.boolFact("indexTableEntryIsFirstRowKey", firstRow)
+	})
+}
